@@ -124,6 +124,8 @@ def concretize(path, pre, leaf, uid):
             files[fn] = "\n".join(sib + inner) + "\n"
             inner = [f"```{{include}} {fn}", "```"]
     lines = (["PRE", ""] if pre == 2 else []) + inner
+    # a duplicate reference definition at document level after everything else (its warning must name this line)
+    lines += ["", f"[dupref{uid}]: https://e.x/1", f"[dupref{uid}]: https://e.x/2"]
     return "\n".join(lines) + "\n", files
 
 
@@ -140,7 +142,10 @@ def observe(case):
     src = d / "doc.md"
     src.write_text(text)
     try:
-        doc, warns = docutils_doctree(text, {"myst_enable_extensions": ["colon_fence"]}, transforms=False, source_path=str(src))
+        conf = {"myst_enable_extensions": ["colon_fence"]}
+        if case["id"] % 2:
+            conf["myst_highlight_code_blocks"] = False          # (another code path creates the literal block)
+        doc, warns = docutils_doctree(text, conf, transforms=False, source_path=str(src))
     except Exception as e:  # noqa: BLE001
         return {"error": f"{type(e).__name__}: {e}", "text": text, "files": files}
     finally:
@@ -203,6 +208,10 @@ def observe(case):
             if len(ats) != 1:
                 return {"problem": f"attribution Attrib{n} occurs {len(ats)} times", "text": text, "files": files}
             obs.append([ats[0].line if ats[0].line is not None else -1, srcidx(ats[0].source)])
+    dd = [w for w in warns if w["tag"] == "myst.duplicate_def"]
+    if len(dd) != 1:
+        return {"problem": f"{len(dd)} [myst.duplicate_def] warnings", "text": text, "files": files}
+    obs.append([dd[0]["line"] if dd[0]["line"] is not None else -1, srcidx(dd[0]["src"])])
     return {"obs": obs, "text": text, "files": files}
 
 
@@ -219,7 +228,7 @@ def run(ctx):
     ctx.rule = ("R: every layout within the bound (path of frames x preamble x leaf), each with unique markers. V: random layouts of depth 3-5. "
                 "non-trivial = at least one directive, container or include frame")
     ctx.assumptions += ["docutils front end, pre-transform doctree; the true line is known by construction and double-checked by M's S clause"]
-    base = {"DevIncludePlusOne": False, "DevColonNested": False, "DevFirstLine": False, "DevRestoreToTop": False, "DevAttribution": False, "DevQuoteNoLine": False}
+    base = {"DevIncludePlusOne": False, "DevColonNested": False, "DevFirstLine": False, "DevRestoreToTop": False, "DevAttribution": False, "DevQuoteNoLine": False, "DevDupShift": False}
     runs = [("depth2", all_frames(), 2, [0, 2], LEAVES), ("depth3", small_frames(), 3, [0], LEAVES if not quick else ["para", "heading", "warn"])]
     if not quick:
         runs.append(("depth4", [frame(w) for w in ("quote", "list", "div", "inc")] + [frame("btick", "colon", 1, 1), frame("colon", "none", 0, 0), frame("colon", "yaml", 1, 0)], 4, [0], ["para", "warn"]))
@@ -239,7 +248,7 @@ def run(ctx):
         if rc.coverage.get(act, (0, 0))[0] == 0:
             raise tlc.MachineryFailure(f"Lines: action {act} never taken (vacuous)")
     ctx.add_tlc("Lines_cov", rc)
-    for dev in ("DevIncludePlusOne", "DevColonNested", "DevFirstLine", "DevRestoreToTop", "DevAttribution", "DevQuoteNoLine"):
+    for dev in ("DevIncludePlusOne", "DevColonNested", "DevFirstLine", "DevRestoreToTop", "DevAttribution", "DevQuoteNoLine", "DevDupShift"):
         rd = tlc.run("Lines", tlc.cfg(ctx, f"l_{dev}.cfg", {**base, dev: True, "Frames": "<-FramesV", "MaxDepth": 2, "Pres": {0}, "Leaves": {"para"}},
                                       invariants=["TrueLines"]), wd=ctx.wd, defs=fv)
         tlc.expect_violation(rd, "TrueLines", f"Lines {dev}")
@@ -397,7 +406,7 @@ _orig_run = run
 
 
 def run(ctx):       # noqa: F811  (wrap: flush the R mismatches through TLC before finishing)
-    base = {"DevIncludePlusOne": False, "DevColonNested": False, "DevFirstLine": False, "DevRestoreToTop": False, "DevAttribution": False, "DevQuoteNoLine": False}
+    base = {"DevIncludePlusOne": False, "DevColonNested": False, "DevFirstLine": False, "DevRestoreToTop": False, "DevAttribution": False, "DevQuoteNoLine": False, "DevDupShift": False}
     _orig_run(ctx)
     _flush_r(ctx, base)
 
